@@ -108,7 +108,9 @@ const TO_CP: u64 = 900_000;
 fn make_world(sc: &Scenario) -> World {
     let mut seed = [0u8; 32];
     seed.copy_from_slice(&hex::decode(TEST_SEED[1]).expect("seed"));
-    let pw = vharness::World::new(vharness::World::default_policy(), seed, lightning_signer::signer::derive::KeyDerivationStyle::Native);
+    let mut pw = vharness::World::new(vharness::World::default_policy(), seed, lightning_signer::signer::derive::KeyDerivationStyle::Native);
+    // as on mainnet: a disconnection beyond the remembered headers is refused
+    pw.config.allow_deep_reorgs = false;
     let node_ctx = TestNodeContext { node: pw.new_node(), secp_ctx: Secp256k1::signing_only() };
     let channel_amount = 3_000_000;
     let stype = SpendType::P2wpkh;
@@ -570,6 +572,11 @@ impl Driver {
         Driver { w, direct, mon, watches, seen, dstack: vec![], init, forgot }
     }
 
+    /// ChainTracker::headers.len(): how many previous headers the tracker remembers
+    fn remembered(&self) -> u64 {
+        self.w.node_ctx.node.get_tracker().headers.len() as u64
+    }
+
     fn obs(&self, u: &Universe) -> Obs {
         let node = &self.w.node_ctx.node;
         let depths = (self.mon.funding_depth(), self.mon.funding_double_spent_depth(), self.mon.closing_depth());
@@ -728,7 +735,10 @@ impl Driver {
             }));
             match r {
                 Ok(true) => Outcome::Done,
-                Ok(false) => Outcome::Rejected,
+                Ok(false) => {
+                    self.w.stack.push((block, prev));
+                    Outcome::Rejected
+                }
                 Err(_) => Outcome::Panicked,
             }
         }
@@ -829,8 +839,21 @@ fn run_case(sc: &Scenario, u: &Universe, steps: &[Step], direct: bool, forgot: b
     let mut cur_depth = 0usize;
     let mut rejected = 0u64;
     let mut n_restarts = 0u64;
+    // the window of remembered headers (tracker driver): deliveries and what was observed
+    let max_reorg = lightning_signer::chain::tracker::ChainTracker::<ChainMonitor>::MAX_REORG_SIZE as usize;
+    let mut wops: Vec<&str> = vec![];
+    let mut wobs: Vec<String> = vec![];
+    let mut peak = 0usize;
+    let mut expected_refusals = 0u64;
+    let mut last_view: Option<Value> = None;
+    let mut steps_removed: Vec<Vec<u64>> = vec![];
+    let sparse_replay = steps.len() > 60;
     let real = |b: &Vec<u64>| -> Vec<Transaction> { b.iter().map(|i| u.txs[i].real.clone()).collect() };
-    for st in steps {
+    for (sti, st) in steps.iter().enumerate() {
+        // must the tracker accept this disconnection?  (not below the creation height, not more
+        // than MAX_REORG_SIZE below the highest block ever connected)
+        let len_before = chain.len();
+        let within_window = len_before > 0 && peak - len_before < max_reorg;
         let ok = match st {
             Step::Add(b, mode) => {
                 coq_steps.push(format!("SAdd {}", u.coq_block(b)));
@@ -847,12 +870,16 @@ fn run_case(sc: &Scenario, u: &Universe, steps: &[Step], direct: bool, forgot: b
                     continue;
                 }
                 let b = chain.pop().expect("remove on empty chain");
+                steps_removed.push(b.clone());
                 coq_steps.push(format!("SRemove {}", u.coq_block(&b)));
                 jsteps.push(json!({"remove": b.iter().map(|i| u.txs[i].name).collect::<Vec<_>>(), "ids": b, "mode": format!("{:?}", mode)}));
                 n_removes += 1;
                 cur_depth += 1;
-                max_depth = max_depth.max(cur_depth);
-                d.remove(*mode)
+                let r = d.remove(*mode);
+                if r == Outcome::Done {
+                    max_depth = max_depth.max(cur_depth);
+                }
+                r
             }
             Step::PartialAdd(b) => {
                 coq_steps.push("SAddPartial".to_string());
@@ -871,10 +898,43 @@ fn run_case(sc: &Scenario, u: &Universe, steps: &[Step], direct: bool, forgot: b
                 d.restart(sc)
             }
         };
+        if !direct && ok != Outcome::Panicked {
+            match st {
+                Step::Add(_, _) => wops.push("WAdd"),
+                Step::Remove(_) => wops.push("WRemove"),
+                Step::Restart => wops.push("WRestart"),
+                _ => {}
+            }
+            if matches!(st, Step::Add(_, _) | Step::Remove(_) | Step::Restart) {
+                wobs.push(if ok == Outcome::Rejected { "None".to_string() } else { format!("(Some {})", d.remembered()) });
+            }
+        }
+        if matches!(st, Step::Add(_, _)) && ok == Outcome::Done {
+            peak = peak.max(chain.len());
+        }
+        if ok == Outcome::Rejected && admissible && matches!(st, Step::Remove(_)) && !within_window {
+            // beyond the window: the refusal is the documented ReorgTooDeep; nothing may change
+            let b = steps_removed.pop().expect("removed block");
+            chain.push(b);
+            coq_steps.pop();
+            jsteps.last_mut().unwrap()["refused"] = json!("beyond the window of remembered headers (expected)");
+            n_removes -= 1;
+            cur_depth -= 1;
+            expected_refusals += 1;
+            let o = d.obs(u);
+            if violation.is_none() && last_view.as_ref().map(|v| *v != o.view).unwrap_or(false) {
+                violation = Some(json!({"what": "a refused disconnection changed the channel's view", "step": jsteps.len() - 1}));
+            }
+            continue;
+        }
         if ok == Outcome::Rejected && admissible {
             // the model has no refusal on an admissible history (C14_no_abort): the channel's
             // view stays on the abandoned branch (and the signer's handlers abort on it)
-            let kind = if matches!(st, Step::Remove(_)) { "disconnect" } else { "connect" };
+            let kind = if matches!(st, Step::Remove(_)) {
+                if len_before > 0 { "disconnect (a reorganisation inside the window of MAX_REORG_SIZE remembered headers)" } else { "disconnect" }
+            } else {
+                "connect"
+            };
             coq_steps.pop();
             let last = jsteps.len() - 1;
             if violation.is_none() {
@@ -919,6 +979,7 @@ fn run_case(sc: &Scenario, u: &Universe, steps: &[Step], direct: bool, forgot: b
         }
         let o = d.obs(u);
         coq_obs.push(o.coq.clone());
+        last_view = Some(o.view.clone());
         // the recorded close must be the one of the confirmed transaction: our output and the
         // claimable HTLC outputs as the harness built them
         if admissible && violation.is_none() {
@@ -956,7 +1017,8 @@ fn run_case(sc: &Scenario, u: &Universe, steps: &[Step], direct: bool, forgot: b
         }
         // the property itself: after a disconnection the view must be the one of a fresh
         // monitor that connected only the surviving chain
-        if admissible && matches!(st, Step::Remove(_) | Step::Restart) && violation.is_none() {
+        let run_ends = !matches!(steps.get(sti + 1), Some(Step::Remove(_)));
+        if admissible && matches!(st, Step::Remove(_) | Step::Restart) && violation.is_none() && (!sparse_replay || run_ends) {
             let mut f = Driver::new(sc, direct, forgot);
             let mut fok = true;
             for b in chain.iter() {
@@ -1002,6 +1064,9 @@ fn run_case(sc: &Scenario, u: &Universe, steps: &[Step], direct: bool, forgot: b
         "max_reorg_depth": max_depth,
         "rejected_by_tracker": rejected,
         "restarts": n_restarts,
+        "expected_refusals": expected_refusals,
+        "max_reorg_size": max_reorg,
+        "wcoq": if direct || !admissible { Value::Null } else { json!(format!("({}, {})", coq_list(&wops), coq_list(&wobs))) },
     });
     CaseOut { coq, json, nontrivial: n_removes > 0 && chain.len() + n_removes >= 2, aborted, monitor_violation: violation }
 }
@@ -1160,6 +1225,7 @@ fn emit_case(c: &CaseOut, stats: &mut BTreeMap<String, u64>) {
     }
     *stats.entry(format!("driver_{}", c.json["driver"].as_str().unwrap())).or_default() += 1;
     *stats.entry("restarts".into()).or_default() += c.json["restarts"].as_u64().unwrap();
+    *stats.entry("expected_refusals_beyond_window".into()).or_default() += c.json["expected_refusals"].as_u64().unwrap();
     for st in c.json["steps"].as_array().unwrap() {
         if st["mode"] == "Watched" {
             *stats.entry(if st.get("remove").is_some() { "watched_removes" } else { "watched_adds" }.into()).or_default() += 1;
@@ -1392,6 +1458,52 @@ fn burial(args: &Args) {
     emit("STATS", json!({"domain": "monitor-burial", "stats": stats}));
 }
 
+/// the edge of the window of remembered headers: 103 blocks connected (funding and
+/// {commitment, sweep} among the first), MAX-1 disconnected and connected again, exactly MAX
+/// disconnected (all must be accepted and leave the view of the first 3 blocks), one more
+/// (must be refused and change nothing), then forward again
+fn window(args: &Args) {
+    let mut stats = BTreeMap::new();
+    let scs = scenarios();
+    let maxw = lightning_signer::chain::tracker::ChainTracker::<ChainMonitor>::MAX_REORG_SIZE;
+    let plans: Vec<(usize, bool)> = vec![(0, false), (8, true)];
+    for (k, (si, watched)) in plans.iter().enumerate().take(args.n.max(1)) {
+        let sc = &scs[*si % scs.len()];
+        let w = make_world(sc);
+        let u = make_universe(sc, &w);
+        let mode = |j: usize| if *watched && j % 2 == 0 { Mode::Watched } else { Mode::Compact };
+        let mut steps: Vec<Step> = vec![];
+        let mut body: Vec<Vec<u64>> = vec![vec![]; 3];
+        body.push(vec![F]);
+        body.push(if u.txs.contains_key(&S) { vec![C, S] } else { vec![C] });
+        while body.len() < maxw + 3 {
+            body.push(if body.len() == 17 { vec![U] } else { vec![] });
+        }
+        for (j, b) in body.iter().enumerate() {
+            steps.push(Step::Add(b.clone(), mode(j)));
+        }
+        for j in 0..maxw - 1 {
+            steps.push(Step::Remove(mode(j)));
+        }
+        if k == 1 {
+            steps.push(Step::Restart);
+        }
+        for (j, b) in body.iter().enumerate().skip(4) {
+            steps.push(Step::Add(b.clone(), mode(j + 1)));
+        }
+        for j in 0..maxw {
+            steps.push(Step::Remove(mode(j + 1)));
+        }
+        steps.push(Step::Remove(Mode::Compact)); // one too many
+        steps.push(Step::Add(vec![F], Mode::Compact));
+        steps.push(Step::Remove(Mode::Compact));
+        steps.push(Step::Add(vec![F], Mode::Compact));
+        let c = run_case(sc, &u, &steps, false, false, true, &format!("window-edge-{}", k));
+        emit_case(&c, &mut stats);
+    }
+    emit("STATS", json!({"domain": "monitor-window", "stats": stats}));
+}
+
 fn main() {
     // one line per panic (most are the observations we are after), no backtraces
     std::panic::set_hook(Box::new(|info| {
@@ -1412,6 +1524,7 @@ fn main() {
         "random" => random(&args, false),
         "malformed" => random(&args, true),
         "burial" => burial(&args),
+        "window" => window(&args),
         _ => {
             eprintln!("usage: monitor systematic|random|malformed|burial --seed S --n N --tier T");
             std::process::exit(2);
